@@ -460,6 +460,7 @@ func c16DotDot(dotu bool) Scenario {
 func c16Scenarios(tier string) []Scenario {
 	var out []Scenario
 	out = append(out, c16DotDot(false), c16DotDot(true))
+	out = append(out, c16Unprivileged(false), c16Unprivileged(true))
 	for t := 0; t < 4; t++ {
 		for _, dotu := range []bool{false, true} {
 			k := 1
@@ -475,7 +476,139 @@ func c16Scenarios(tier string) []Scenario {
 func init() {
 	register(&Property{ID: "C16", Level: "exploration",
 		Technique: "bounded-exhaustive enumeration of walks and stats over constructed trees against the real Ufs, compared with os.Lstat",
-		Rule:      "4 constructed trees (files, directories, symlinks to file/dir/dangling, hard links, names with spaces, dots, non-ASCII and non-UTF-8 bytes, 255-byte names, a 40-level chain, modes 0000-0777, a >4 GiB sparse file); for every node and k in 0..1 (thorough 2) missing trailing elements: the walk from the root (and from every ancestor) as one Twalk (<= 16 elements) to a new fid and in place, Tstat of both fids afterwards and again once the new fid is open, stat of every node in both dialects, every element list of length <= 4 with '..' behind symbolic links to directories compared with the host's own resolution, Clnt.FStat of every path and of a missing child. non-trivial = walks/stats compared",
-		Assumptions: []string{"the host file system and os.Lstat are the reference; run as the sandbox user (root), permission denials are not exercised", "random trees of the quantifier are sampling and not claimed"},
+		Rule:      "4 constructed trees (files, directories, symlinks to file/dir/dangling, hard links, names with spaces, dots, non-ASCII and non-UTF-8 bytes, 255-byte names, a 40-level chain, modes 0000-0777, a >4 GiB sparse file); for every node and k in 0..1 (thorough 2) missing trailing elements: the walk from the root (and from every ancestor) as one Twalk (<= 16 elements) to a new fid and in place, Tstat of both fids afterwards and again once the new fid is open, stat of every node in both dialects, every element list of length <= 4 with '..' behind symbolic links to directories compared with the host's own resolution, Clnt.FStat of every path and of a missing child; every element list of length <= 3 over a tree with unsearchable and unlistable directories, served by an ordinary user, compared with that user's lstat. non-trivial = walks/stats compared",
+		Assumptions: []string{"the host file system and os.Lstat are the reference; one scenario serves a tree with unsearchable directories with the effective ids of an ordinary user, the others run as the sandbox user", "random trees of the quantifier are sampling and not claimed"},
 		Scenarios:   c16Scenarios, QuickS: 100, ThoroughS: 600})
+}
+
+// c16Unprivileged: the server runs as an ordinary user and the tree has directories it
+// may not search or list. A name "exists" for the walk exactly as far as lstat, done by
+// that user, says so: every element list of length <= 3 over the names of the tree,
+// from the root to a new fid and in place.
+func c16Unprivileged(dotu bool) Scenario {
+	name := fmt.Sprintf("ordinary-user tree with unsearchable directories dotu=%v", dotu)
+	return Scenario{Name: name, Run: func(rc *RunCtx) *Result {
+		res := &Result{Exhaustive: true}
+		base, root := scratchDir("c16u")
+		defer os.RemoveAll(base)
+		openUp(base, root)
+		os.MkdirAll(filepath.Join(root, "pub", "locked", "x"), 0o755)
+		os.WriteFile(filepath.Join(root, "pub", "locked", "f"), []byte("f"), 0o644)
+		os.MkdirAll(filepath.Join(root, "pub", "open", "x"), 0o755)
+		os.MkdirAll(filepath.Join(root, "pub", "nolist", "x"), 0o755)
+		os.MkdirAll(filepath.Join(root, "locked", "x"), 0o755)
+		os.Chmod(filepath.Join(root, "pub", "locked"), 0)
+		os.Chmod(filepath.Join(root, "pub", "nolist"), 0o311)
+		os.Chmod(filepath.Join(root, "locked"), 0)
+		defer func() {
+			os.Chmod(filepath.Join(root, "pub", "locked"), 0o755)
+			os.Chmod(filepath.Join(root, "pub", "nolist"), 0o755)
+			os.Chmod(filepath.Join(root, "locked"), 0o755)
+		}()
+		restore := asOrdinaryUser()
+		defer restore()
+		if _, err := os.Lstat(filepath.Join(root, "pub", "locked", "x")); err == nil && os.Getenv("VERIF_NO_DROP") != "1" {
+			res.Samples = append(res.Samples, "the host does not refuse this user anything: nothing to compare")
+			return res
+		}
+		seen := map[string]bool{}
+		fail := func(sig, msg string) {
+			if !seen[sig] && len(res.Findings) < 10 {
+				seen[sig] = true
+				res.Findings = append(res.Findings, Finding{Sig: "C16/" + sig, Msg: msg + fmt.Sprintf(" (server run by uid %d, dotu %v)", os.Geteuid(), dotu)})
+			}
+		}
+		alpha := []string{"pub", "locked", "open", "nolist", "x", "f", "nope"}
+		var lists [][]string
+		var rec func(cur []string)
+		rec = func(cur []string) {
+			if len(cur) > 0 {
+				lists = append(lists, append([]string{}, cur...))
+			}
+			if len(cur) == 3 {
+				return
+			}
+			for _, a := range alpha {
+				rec(append(cur, a))
+			}
+		}
+		rec(nil)
+		body := func() {
+			h := newUfsH(root, 8216, dotu)
+			cl := h.Connect()
+			ver := "9P2000"
+			un := ""
+			if dotu {
+				ver = "9P2000.u"
+			} else {
+				un = go9p.OsUsers.Uid2User(os.Geteuid()).Name()
+			}
+			cl.Version(8216, ver)
+			if r := cl.Rpc(tattach(1, 0, wire.NOFID, un, uint32(os.Geteuid()), dotu)); r == nil || r.Type != wire.Rattach {
+				fail("attach", fmt.Sprintf("Tattach answered by %v", r))
+				return
+			}
+			rootFi, _ := os.Lstat(root)
+			for _, names := range lists {
+				var fis []os.FileInfo
+				for i := range names {
+					fi, err := os.Lstat(filepath.Join(root, filepath.Join(names[:i+1]...)))
+					if err != nil {
+						break
+					}
+					fis = append(fis, fi)
+				}
+				existing := len(fis)
+				for _, inplace := range []bool{false, true} {
+					res.Evals++
+					src, dst := uint32(0), uint32(5)
+					if inplace {
+						cl.Rpc(twalk(4, 0, 6))
+						src, dst = 6, 6
+					}
+					r := cl.Rpc(twalk(4, src, dst, names...))
+					switch {
+					case r == nil:
+						fail("walk-no-reply", fmt.Sprintf("no reply to Twalk %v", names))
+					case existing == 0 && r.Type != wire.Rerror:
+						fail("walk-first-missing-not-error", fmt.Sprintf("Twalk %v whose first element cannot be looked up answered by %s", names, r))
+					case existing > 0 && (r.Type != wire.Rwalk || len(r.Wqid) != existing):
+						fail("walk-qid-count", fmt.Sprintf("Twalk %v: lstat by the same user succeeds for %d leading elements, reply %s", names, existing, r))
+					case existing > 0:
+						for i, q := range r.Wqid {
+							if q.Path != fis[i].Sys().(*syscall.Stat_t).Ino || (q.Type&0x80 != 0) != fis[i].IsDir() {
+								fail("walk-qid-mismatch", fmt.Sprintf("Twalk %v: qid %d %v does not match lstat", names, i, q))
+							}
+						}
+					}
+					sd := cl.Rpc(&wire.Msg{Type: wire.Tstat, Tag: 9, Fid: dst})
+					complete := r != nil && r.Type == wire.Rwalk && existing == len(names)
+					switch {
+					case complete:
+						if sd == nil || sd.Type != wire.Rstat {
+							fail("newfid-unusable-after-full-walk", fmt.Sprintf("after a complete Twalk %v the fid answers %v", names, sd))
+						} else if p := c16CheckStat(&sd.Stat, fis[existing-1], names[len(names)-1], dotu); p != "" {
+							fail("stat-mismatch/"+sigWords(p), fmt.Sprintf("Tstat after Twalk %v: %s", names, p))
+						}
+					case inplace:
+						if sd == nil || sd.Type != wire.Rstat || c16CheckStat(&sd.Stat, rootFi, filepath.Base(root), dotu) != "" {
+							fail("fid-moved-by-partial-in-place-walk", fmt.Sprintf("after a partial in-place Twalk %v (%d elements can be looked up) the fid answers %v", names, existing, sd))
+						}
+					default:
+						if sd == nil || sd.Type != wire.Rerror {
+							fail("newfid-valid-after-partial-walk", fmt.Sprintf("after a partial Twalk %v the new fid answers %v", names, sd))
+						}
+					}
+					cl.Rpc(&wire.Msg{Type: wire.Tclunk, Tag: 4, Fid: dst})
+				}
+			}
+		}
+		x := vs.Run(nil, body, vs.Options{Horizon: 500000000})
+		if len(x.Panics) > 0 {
+			fail("panic/"+x.Panics[0].Frame, "panic: "+x.Panics[0].Value)
+		}
+		res.Nontrivial = res.Evals
+		res.Samples = append(res.Samples, fmt.Sprintf("%d element lists over %v, to a new fid and in place, server run by uid %d", len(lists), alpha, os.Geteuid()))
+		return res
+	}}
 }
